@@ -218,3 +218,11 @@ def resolve_locals(eng, store, t, depth=5):
                 return ("ptr", ("D", inner), x[2])
         return None
     return rewrite(t, f)
+
+
+def path_field(path):
+    """name of the last field element of a projection path (index / downcast elements skipped), or None"""
+    for x in reversed(path or ()):
+        if x[0] == "f":
+            return x[2]
+    return None
